@@ -1202,7 +1202,10 @@ impl<T: TypeConfig> RaftRoleState for LeaderState<T> {
                         "my({}) term < request one, now I will step down to Follower",
                         my_id
                     );
-                    //TODO: if there is a bug?  self.update_current_term(vote_request.term);
+                    // Adopt the sender's term before stepping down: the leader-change
+                    // notification issued on BecomeFollower pairs the new leader with this
+                    // node's current term, and the new leader never led the old term.
+                    self.update_current_term(cluste_conf_change_request.term);
                     self.send_become_follower_event(
                         Some(cluste_conf_change_request.id),
                         &internal_event_tx,
@@ -1239,7 +1242,10 @@ impl<T: TypeConfig> RaftRoleState for LeaderState<T> {
                         "my({}) term < request one, now I will step down to Follower",
                         my_id
                     );
-                    //TODO: if there is a bug?  self.update_current_term(vote_request.term);
+                    // Adopt the new leader's term before stepping down: the leader-change
+                    // notification issued on BecomeFollower pairs the new leader with this
+                    // node's current term, and the new leader never led the old term.
+                    self.update_current_term(append_entries_request.term);
                     // Revoke lease immediately — window-period fix (see VoteRequest branch).
                     self.shared_state.lease.revoke();
                     self.send_become_follower_event(
